@@ -43,10 +43,52 @@ def _ht_class(ht):
                        "|ACP" if ht & 0x80 else "", "|FORKID" if ht & 0x40 else "")
 
 
-def _scen_class(S):
-    s = bytes(S["script"])
-    return "sigs=%d,sep=%d,begin=%d,len%s252" % (len(S["sigs"]), int(b"\xab" in s), int(S["begin"] > 0),
-                                                 ">" if len(s) > 252 else "<=")
+_FEATS = ("base", "acp", "forkid", "single_out_of_range", "sig_pushes_in_script", "separators", "begin>0", "script>252")
+
+
+def _instructions(script):
+    """the instructions of a parseable script (used only to classify failing cases)"""
+    out, pc = [], 0
+    while pc < len(script):
+        b = script[pc]
+        n, h = (b, 1) if b < 76 else (script[pc + 1], 2) if b == 76 else \
+            (int.from_bytes(script[pc + 1:pc + 3], "little"), 3) if b == 77 else \
+            (int.from_bytes(script[pc + 1:pc + 5], "little"), 5) if b == 78 else (0, 1)
+        out.append(script[pc:pc + h + n])
+        pc += h + n
+    return out
+
+
+def _features(r, nouts):
+    """class-level features of a request (request_json vocabulary)"""
+    ht = r["ht"]
+    script = bytes(r["script"])
+    return {"base": {1: "ALL", 2: "NONE", 3: "SINGLE"}.get(ht & 0x1F, "other"),
+            "acp": int(bool(ht & 0x80)), "forkid": int(bool(ht & 0x40)),
+            "single_out_of_range": int((ht & 0x1F) == 3 and r["i"] > nouts),
+            "sig_pushes_in_script": int(any(_push(bytes(x)) in _instructions(script) for x in r["sigs"])),
+            "separators": int(b"\xab" in _instructions(script)), "begin>0": int(r["begin"] > 0), "script>252": int(len(script) > 252)}
+
+
+def _group_keys(prefix, fails, universe):
+    """fails: [(group tuple, features)], universe: group[:2] -> feature -> set of values exercised.
+    One key per group = (coin, sigversion, what, via); a feature enters the key only when the
+    failures are confined to some of the values that were exercised (so every input hitting one
+    defect shares the key, and a defect confined to another class gets another key)."""
+    by = {}
+    for g, f in fails:
+        d = by.setdefault(g, {k: set() for k in _FEATS})
+        for k in _FEATS:
+            d[k].add(f[k])
+    keys = {}
+    for g, d in by.items():
+        u = universe.get(g[:2], {})
+        parts = ["%s=%s" % (k, "+".join(str(v) for v in sorted(d[k], key=str)))
+                 for k in _FEATS if d[k] != u.get(k, d[k])]
+        if any(str(x).startswith("deviation=") for x in g):
+            parts = []          # a wrong rule the spec knows by name: the name is the class
+        keys[g] = "|".join([prefix] + [str(x) for x in g] + parts)
+    return keys
 
 
 def _run_case(tab, rec, cache):
@@ -85,20 +127,11 @@ def _run_case(tab, rec, cache):
                     "fresh_checker_agrees": drv.judge(exp, fobs) is None,
                     "tx": drv.tx_json(fresh_tx),
                     "request": drv.request_json(coin, sv, i, S["script"], S["begin"], S["sigs"], ht),
+                    "features": _features(drv.request_json(coin, sv, i, S["script"], S["begin"], S["sigs"], ht), m),
+                    "group": (coin, sv, what, "via=" + (bad[1] if bad else "project(tx)")),
                     "scenario": S, "amount": amount, "single_bug": (ht & 0x1F) == 3 and i >= m,
                     "tx_before": before, "tx_after": after if modified else None}
     return None
-
-
-def _fail_key(f):
-    c = f["case"]
-    S = f["scenario"]
-    if f["what"].startswith("deviation="):
-        # pycoin follows a wrong rule the spec knows by name: one key per (coin, sigversion, rule)
-        return "C04|replay|%s|%s|%s|via=%s" % (c["coin"], c["sv"], f["what"], f["via"])
-    return "C04|replay|%s|%s|%s|%s%s|%s|via=%s" % (
-        c["coin"], c["sv"], _ht_class(c["ht"]), "single-out-of-range|" if f["single_bug"] else "",
-        _scen_class(S), f["what"], f["via"])
 
 
 def _replay_chunk(args):
@@ -126,16 +159,33 @@ class Replayer:
         self.fails = []
         self.classes = set()
         self.first = None
+        self.cands = []
+        self.early = []
+        self.universe = {}
 
     def feed(self, rec):
         if rec.get("k") == "tab":
             self.tab = rec
+            early, self.early = self.early, []
+            for r in early:
+                self.feed(r)
             return
         if rec.get("k") != "case":
             return
+        if self.tab is None:
+            self.early.append(rec)
+            return
+        S = self.tab["scenarios"][rec["sc"] - 1]
+        ft = _features({"ht": rec["ht"], "i": rec["i"], "script": S["script"], "sigs": S["sigs"], "begin": S["begin"]}, rec["m"])
+        u = self.universe.setdefault((rec["coin"], rec["sv"]), {k: set() for k in _FEATS})
+        for k in _FEATS:
+            u[k].add(ft[k])
         self.n += 1
-        if self.first is None and rec["d"][0]["k"] not in ("refuse", "any") and rec["sc"] != 1:
-            self.first = rec
+        if rec["d"][0]["k"] not in ("refuse", "any"):
+            if self.first is None and rec["sc"] != 1:
+                self.first = rec
+            if len(self.cands) < 60 and self.n % 977 == 1:
+                self.cands.append(rec)
         self.classes.add((rec["coin"], rec["sv"], _ht_class(rec["ht"]), rec["n"], rec["m"], rec["i"], rec["sc"]))
         self.buf.append(rec)
         if len(self.buf) >= 500 and self.tab is not None:
@@ -155,6 +205,8 @@ class Replayer:
         self.fails += fails
 
     def finish(self):
+        if self.early:
+            raise MachineryError("MC_SighashReplay printed cases but no table")
         self._flush()
         for ar in self.pending:
             self._collect(ar)
@@ -179,20 +231,24 @@ def stage_replay(ctx):
         ctx.case(("replay",) + k, 0)
     if rp.first is not None:
         ctx.sample({"replay_case": rp.first})
+    keys = _group_keys("C04|replay", [(f["group"], f["features"]) for f in fails], rp.universe)
     for f in fails:
         c = f["case"]
-        ctx.fail(_fail_key(f),
+        ctx.fail(keys[f["group"]],
                  "pycoin %s/%s input %d of %d, %d outputs, hash type 0x%02x, scenario %d: %s via %s: spec demands %s, pycoin gave %s" % (
                      c["coin"], c["sv"], c["i"], c["n"], c["m"], c["ht"], c["sc"], f["what"], f["via"],
                      _fmt(f["expected"]), _fmt(f["got"])), f)
     # binding self-test: corrupt the expectation of one case; the comparison must notice
-    if rp.first is not None:
-        rec = copy.deepcopy(rp.first)
-        ok0 = _run_case(rp.tab, rec, {}) is None
+    # (on a case pycoin passes; if pycoin passes none of the candidates there is nothing to corrupt)
+    passing = [c for c in rp.cands if c["d"][0]["k"] != "b" and _run_case(rp.tab, c, {}) is None][:1]
+    if passing:
+        rec = copy.deepcopy(passing[0])
         pre = rec["d"][0]["x"]
         lit = [c for c in pre if c["k"] == "b"][-1]
         lit["v"][0] ^= 1
-        ctx.selftest("replay_rejects_corrupted_expectation", ok0 and _run_case(rp.tab, rec, {}) is not None)
+        ctx.selftest("replay_rejects_corrupted_expectation", _run_case(rp.tab, rec, {}) is not None)
+    elif not fails:
+        raise MachineryError("no replay case available for the binding self-test")
     return rp
 
 
@@ -284,8 +340,8 @@ def _gt_transactions():
 def _gt_collect(item):
     label, coin, tx, flags = item
     before = drv.project(tx)
+    txj = drv.tx_json(tx)        # the transaction as it is BEFORE pycoin touches it
     checks, verdicts = drv.collect_signature_checks(coin, tx, flags)
-    txj = drv.tx_json(tx)
     seen = set()
     out = []
     for c in checks:
@@ -506,36 +562,44 @@ def validate_traces(ctx, traces):
 
 
 def _trace_diagnosis(t, info):
-    """why TLC rejected: first event whose logged result is not the spec's (class-level key)"""
+    """why TLC rejected: the first event whose logged outcome is not the spec's.
+    Returns (group, event): group = (coin, sigversion, what)"""
     for e, (exp, devs) in zip(t["ev"], info):
         r = e["r"]
-        cls = "%s|%s" % (r["coin"], r["sv"])
         if e["after"] != t["tx"]:
-            return "C04|trace|%s|tx-modified" % cls, e
+            return (r["coin"], r["sv"], "tx-modified"), e
         if exp is None:
             continue
         got = bytes(e["res"])
         if e["raised"] or got != exp:
             for name, d in devs:
                 if got == d:
-                    return "C04|trace|%s|deviation=%s" % (cls, name), e
-            single = (r["ht"] & 0x1F) == 3 and r["i"] > len(t["tx"]["outs"])
-            return "C04|trace|%s|%s%s|%s" % (cls, _ht_class(r["ht"]), "|single-out-of-range" if single else "",
-                                             "raised" if e["raised"] else "digest"), e
+                    return (r["coin"], r["sv"], "deviation=" + name), e
+            return (r["coin"], r["sv"], "raised" if e["raised"] else "digest"), e
     for e, (exp, devs) in zip(t["ev"], info):
         if exp is None and not e["raised"] and e["r"]["sv"] == "base":
-            return "C04|trace|%s|%s|not-refused" % (e["r"]["coin"], e["r"]["sv"]), e
-    return "C04|trace|rejected-for-unknown-reason", t["ev"][0]
+            return (e["r"]["coin"], e["r"]["sv"], "not-refused"), e
+    return (t["coin"], "-", "rejected-for-unknown-reason"), t["ev"][0]
 
 
 def stage_traces(ctx):
-    ntr = 150 if ctx.quick else 1500
+    ntr = 150 if ctx.quick else 1000
     traces = record_traces(ctx.seed * 7919 + 4, ntr)
     nev = sum(len(t["ev"]) for t in traces)
     ctx.log("recorded %d traces (%d sighash requests) on random transactions" % (len(traces), nev))
     pos = 0
+    accepted = []
+    rejected = []
+    universe = {}
+    for t in traces:
+        for e in t["ev"]:
+            u = universe.setdefault((e["r"]["coin"], e["r"]["sv"]), {k: set() for k in _FEATS})
+            ft = _features(e["r"], len(t["tx"]["outs"]))
+            for k in _FEATS:
+                u[k].add(ft[k])
     for chunk in split(traces, max(1, len(traces) // 300)):
         rej, info = validate_traces(ctx, chunk)
+        accepted += [t for k, t in enumerate(chunk) if k not in rej]
         ctx.traces += len(chunk) - len(rej)
         ctx.case(None, sum(len(t["ev"]) for t in chunk))
         off = [0]
@@ -548,17 +612,20 @@ def stage_traces(ctx):
                 ctx.fail("C04|trace|%s|tx-object-modified" % t["coin"], "the transaction object changed during a trace", {"tx": t["tx"]})
         for k in rej:
             t = chunk[k]
-            key, e = _trace_diagnosis(t, info[off[k]:off[k + 1]])
-            ctx.fail(key, "recorded pycoin run is not a behaviour of Sighash.tla: %s request input %d hash type 0x%02x returned %s" % (
-                e["r"]["coin"] + "/" + e["r"]["sv"], e["r"]["i"], e["r"]["ht"], bytes(e["res"]).hex() or "an exception"),
-                {"tx": t["tx"], "request": e["r"], "event": e})
+            g, e = _trace_diagnosis(t, info[off[k]:off[k + 1]])
+            rejected.append((g, _features(e["r"], len(t["tx"]["outs"])), t, e))
         if pos == 0:
             small = min(chunk, key=lambda t: len(json.dumps(t["tx"])))
             ctx.sample({"trace": {"coin": small["coin"], "tx": small["tx"],
                                   "events": [{"r": e["r"], "res": bytes(e["res"]).hex()} for e in small["ev"][:2]]}})
         pos += len(chunk)
+    keys = _group_keys("C04|trace", [(g, ft) for g, ft, t, e in rejected], universe)
+    for g, ft, t, e in rejected:
+        ctx.fail(keys[g], "recorded pycoin run is not a behaviour of Sighash.tla: %s request input %d hash type 0x%02x returned %s" % (
+            e["r"]["coin"] + "/" + e["r"]["sv"], e["r"]["i"], e["r"]["ht"], bytes(e["res"]).hex() or "an exception"),
+            {"tx": t["tx"], "request": e["r"], "event": e})
     # binding self-test: corrupt one logged field of accepted traces
-    good = [t for t in traces[:40] if len(t["tx"]["ins"]) < 20 and t["ev"][-1]["res"] and t["coin"] != "BCH"][:1]
+    good = [t for t in accepted if len(t["tx"]["ins"]) < 20 and t["ev"][-1]["res"] and t["coin"] != "BCH"][:1]
     if good:
         b1 = copy.deepcopy(good[0])
         b1["ev"][-1]["res"][5] ^= 0x10                       # a digest pycoin did not return
